@@ -1,5 +1,8 @@
 (* conv.ml — conversions between OCaml values and the extracted inductive types. *)
 open Model
+module String = Stdlib.String
+module List = Stdlib.List
+type string = Stdlib.String.t
 
 let rec nat_of_int (i : int) : nat = if i <= 0 then O else S (nat_of_int (i - 1))
 (* iterative variant for large fuel values *)
